@@ -166,6 +166,22 @@ fn run_group<G: VariableBaseMSM>(op: &str, a: &[Arg], bases: Vec<G::MulBase>, ou
             let f = fks();
             out(&G::msm_chunks(&bases.as_slice(), &f.as_slice()))
         },
+        "msm_chunks_long" => {
+            // a stream longer than the hard-coded chunk size, given intensionally: base i = pool[i mod |pool|],
+            // scalar i = 0 except at the listed (index, value) pairs (flat list a[6] = [i0, v0, i1, v1, ...])
+            let n = to_usize(&a[5][0]);
+            let f = fks();
+            let mut sc = vec![G::ScalarField::from(0u64); n];
+            for pr in f.chunks(2) {
+                if pr.len() == 2 {
+                    let idx: num_bigint::BigUint = pr[0].into_bigint().into();
+                    let idx = idx.to_u64_digits().first().copied().unwrap_or(0) as usize;
+                    if idx < n && sc[idx] == G::ScalarField::from(0u64) { sc[idx] = pr[1]; }
+                }
+            }
+            let bl: Vec<_> = (0..n).map(|i| bases[i % bases.len()]).collect();
+            out(&G::msm_chunks(&bl.as_slice(), &sc.as_slice()))
+        },
         "chunked" => {
             let size = to_usize(&a[5][0]);
             let mut cp = if to_u64(&a[5][1]) == 0 {
